@@ -15,9 +15,19 @@ from .sem import Scope, canon, outcomes
 R = "E2.product_by_order"
 
 
+_BINARY_FUNCS = {"sub": ast.Sub, "operator.sub": ast.Sub, "add": ast.Add, "operator.add": ast.Add}
+
+
 def _strip_tuple(e):
     while isinstance(e, ast.Call) and call_name(e) == "tuple" and len(e.args) == 1:
         e = e.args[0]
+    # map(sub, A, B) is (x - y for x, y in zip(A, B))
+    if isinstance(e, ast.Call) and call_name(e) == "map" and len(e.args) == 3 and not e.keywords and call_name(ast.Call(func=e.args[0], args=[], keywords=[])) in _BINARY_FUNCS:
+        op = _BINARY_FUNCS[call_name(ast.Call(func=e.args[0], args=[], keywords=[]))]()
+        x, y = ast.Name(id="_m0", ctx=ast.Load()), ast.Name(id="_m1", ctx=ast.Load())
+        e = ast.GeneratorExp(elt=ast.BinOp(left=x, op=op, right=y), generators=[ast.comprehension(
+            target=ast.Tuple(elts=[ast.Name(id="_m0", ctx=ast.Store()), ast.Name(id="_m1", ctx=ast.Store())], ctx=ast.Store()),
+            iter=ast.Call(func=ast.Name(id="zip", ctx=ast.Load()), args=[e.args[1], e.args[2]], keywords=[]), ifs=[], is_async=0)])
     return e
 
 
@@ -180,6 +190,7 @@ def rule_product_by_order(rep: Report, repo: Repo):
     n_paths = 0
     fails = set()
     unknown = set()
+    counts_seen = {}  # environment -> [(count, required, node, undecided conditions on the path)]
     wiring_seen = {"first": set(), "second": set()}
     for herm, diag, ordering in iproduct((False, True), (False, True), ("<", "=", ">")):
         def atom(n):
@@ -230,6 +241,7 @@ def rule_product_by_order(rep: Report, repo: Repo):
                         term_txt = norm(p)
             # which free conditions decided this path?
             skipped_free = False
+            free_conds = []
             both_present = False
             present = {"first": False, "second": False}
             zero_checked = {"first": False, "second": False}
@@ -301,18 +313,30 @@ def rule_product_by_order(rep: Report, repo: Repo):
                 if v_known is None and o.kind == "continue" and test is o.conds[-1][0]:
                     unknown.add(norm(test)[:90])
                     skipped_free = True
+                elif v_known is None:
+                    free_conds.append(norm(test)[:90])
             env_txt = f"hermitian={herm} start==end:{diag} orders_1st{ordering}orders_2nd"
             if skipped_free:
                 if (plain, dag) != (0, 0):
                     fails.add((f"series::product_by_order E2.3 {env_txt}: an absent/zero term is skipped after accumulating", "", o.node))
                 continue
-            if (plain, dag) != want:
-                fails.add((f"series::product_by_order E2.3 multiplicity {env_txt}: contributes (term, adjoint) = {(plain, dag)}, required {want}",
-                           "Hermitian half-sum: pairs (o1<o2) count term + adjoint, o1=o2 once, o1>o2 skipped; non-Hermitian or "
-                           "off-diagonal blocks: every splitting exactly once", o.node))
+            counts_seen.setdefault(env_txt, []).append(((plain, dag), want, o.node, tuple(free_conds)))
             if plain and not (zero_checked["first"] and zero_checked["second"]):
                 fails.add(("series::product_by_order sentinel: a term is accumulated without both factors being tested against `zero`",
                            f"zero-tested: {zero_checked}", o.node))
+    for env_txt, seen_ in counts_seen.items():
+        kinds = {c for c, _w, _n, _f in seen_}
+        if len(kinds) > 1:
+            # paths of one environment that differ only in conditions the case grid does not decide give different counts: which one
+            # applies depends on a condition that is not understood
+            free = sorted({f_ for _c, _w, _n, fs in seen_ for f_ in fs})
+            unknown.add(free[0] if free else f"(paths of {env_txt} disagree)")
+            continue
+        (plain, dag), want, node, _f = seen_[0]
+        if (plain, dag) != want:
+            fails.add((f"series::product_by_order E2.3 multiplicity {env_txt}: contributes (term, adjoint) = {(plain, dag)}, required {want}",
+                       "Hermitian half-sum: pairs (o1<o2) count term + adjoint, o1=o2 once, o1>o2 skipped; non-Hermitian or "
+                       "off-diagonal blocks: every splitting exactly once", node))
     for key, detail, node in sorted(fails, key=lambda x: x[0]):
         rep.fail(R, key, detail, loc(node) if node is not None else loc(loop))
     if not any(k.startswith("series::product_by_order E2.3") for k, _d, _n in fails):
@@ -339,8 +363,8 @@ def rule_product_by_order(rep: Report, repo: Repo):
             rep.check(ok, R, f"series::product_by_order E2.2 `{which}[...]` index wiring",
                       f"index `{t[:90]}`; required ({start}, {middle}, *orders_1st) for first, ({middle}, {end}, *(orders - orders_1st)) for second",
                       loc(loop))
-    if unknown and not fails:
-        raise AnalysisError(R, f"loop body skips a term under a condition that is not understood: `{sorted(unknown)[0]}`")
+    if unknown:
+        raise AnalysisError(R, f"loop body branches on a condition about the splitting that is not understood: `{sorted(unknown)[0]}`")
     # -- operator application order ---------------------------------------------------------------------------------------------
     _operator_order(rep, repo, f, loop, scope, env0, acc)
 
@@ -727,6 +751,18 @@ def rule_cauchy_wiring(rep: Report, repo: Repo):
             fwd.append(oo.value)
         elif oo.kind == "return" and any(isinstance(n, ast.Call) and call_name(n) == "product_by_order" for n in ast.walk(oo.value)):
             raise AnalysisError(RC, f"product_by_order result is post-processed: `{norm(oo.value)[:80]}`")
+        elif oo.kind == "return" and isinstance(oo.value, ast.Call) and (call_name(oo.value) in ("Dagger", "adjoint") or (
+                isinstance(oo.value.func, ast.Attribute) and oo.value.func.attr in ("adjoint", "conj", "conjugate"))):
+            pass  # the Hermitian fill of a lower block (decided by E2.adjoint_fill)
+        elif oo.kind == "return":
+            # any other way out of the eval: a value that is not the Cauchy sum
+            tests = [norm(t)[:70] for t, _p in oo.conds if any(isinstance(n, ast.Call) and call_name(n) == "product_by_order" for n in ast.walk(t))]
+            if norm(oo.value) in ("zero", "one") and tests:
+                rep.fail(RC, f"series::cauchy_dot_product eval returns the `{norm(oo.value)}` sentinel instead of the computed product when `{tests[0]}`",
+                         "the product of two series has no natural scale: a sum whose entries are small in absolute terms is still the "
+                         "value of the element, and the sentinel makes every later product drop it", loc(oo.node))
+            else:
+                raise AnalysisError(RC, f"two-factor eval returns `{norm(oo.value)[:60]}` on a path that does not forward to product_by_order: not understood")
     rep.floor(RC, "product_by_order forwarding returns", len(fwd), 1)
     dflt = default_operator(f)
     for c in fwd:
